@@ -13,7 +13,9 @@ _T1 = ["vbi_roundtrip", "vbi_range", "vbi_canonical_length", "vbi_decode_consume
        "topic_filter_validity_spec", "v5_topic_validity_spec", "utf8_validity_orig_violated",
        "topic_filter_validity_orig_violated", "topic_name_validity_orig_violated"]
 _T2 = ["props_roundtrip", "props_roundtrip_will", "props_reencode_stable", "props_unpack_total_and_bounded"]
-THEOREMS = ["GmqttVerif.Codec." + t for t in _T1 + _T2]
+_T3 = ["decode_no_overread", "encode_decode", "decode_wf", "reencode_stable", "size_exact", "msg_size_exact'",
+       "msg_size_exact_orig_violated", "alloc_proportional_violated", "alloc_proportional_partial"]
+THEOREMS = ["GmqttVerif.Codec." + t for t in _T1 + _T2 + _T3]
 COMPS = ["codec"]
 
 # ------------------------------------------------------------------ independent codec: primitives
